@@ -457,6 +457,36 @@ func init() {
 		}
 		return nil
 	}
+	// sort.Slice / sort.SliceStable (reflect-driven in the library): insertion sort driven by the
+	// real less function; this is exactly what the library does for up to 12 elements, beyond that
+	// the order of elements that compare equal may differ from the library's.
+	sortSlice := func(in *Interp, fr *frame, a []Value) Value {
+		x, ok := a[0].(Iface)
+		if !ok {
+			in.unsupported("sort.Slice of a non-interface value")
+		}
+		xs, ok := x.V.([]Value)
+		if !ok {
+			in.unsupported(fmt.Sprintf("sort.Slice of %T", x.V))
+		}
+		less := func(i, j int) bool {
+			switch r := in.call(fr, a[1], []Value{int64(i), int64(j)}).(type) {
+			case bool:
+				return r
+			case *Term:
+				return in.branch(r)
+			}
+			return false
+		}
+		for i := 1; i < len(xs); i++ {
+			for j := i; j > 0 && less(j, j-1); j-- {
+				xs[j], xs[j-1] = xs[j-1], xs[j]
+			}
+		}
+		return nil
+	}
+	intrinsics["sort.Slice"] = sortSlice
+	intrinsics["sort.SliceStable"] = sortSlice
 	intrinsics["(*sync.Once).Do"] = func(in *Interp, fr *frame, a []Value) Value {
 		p := a[0].(*Value)
 		st := (*p).(Struct)
@@ -853,33 +883,57 @@ func (in *Interp) tryErrorString(i Iface) string {
 }
 
 func (in *Interp) sprintf(fr *frame, format Value, args []Value) Value {
-	f, ok := format.(string)
-	if !ok {
-		in.unsupported("symbolic format string")
+	// the format may hold symbolic bytes (text spliced into a format string): a symbolic byte is
+	// either a literal (copied through) or, on a separate path, a '%'; the bytes of a conversion
+	// specification are concretised.
+	fb := strBytes(format)
+	isPct := func(i int) bool {
+		switch b := fb[i].(type) {
+		case uint64:
+			return b == '%'
+		case *Term:
+			return in.branch(Eq(b, Const(8, '%')))
+		}
+		return false
+	}
+	conc := func(i int) byte {
+		switch b := fb[i].(type) {
+		case uint64:
+			return byte(b)
+		case *Term:
+			return byte(in.concretize(b, "byte of a format specification"))
+		}
+		return 0
 	}
 	var out []Value
 	emit := func(s string) { out = append(out, strBytes(s)...) }
 	ai := 0
-	for i := 0; i < len(f); {
-		if f[i] != '%' {
-			j := strings.IndexByte(f[i:], '%')
-			if j < 0 {
-				j = len(f) - i
-			}
-			emit(f[i : i+j])
-			i += j
+	for i := 0; i < len(fb); {
+		if !isPct(i) {
+			out = append(out, fb[i])
+			i++
 			continue
 		}
 		j := i + 1
-		for j < len(f) && strings.IndexByte("+-# 0123456789.", f[j]) >= 0 {
+		spec := []byte{'%'}
+		for j < len(fb) {
+			c := conc(j)
+			if strings.IndexByte("+-# 0123456789.", c) < 0 {
+				break
+			}
+			spec = append(spec, c)
 			j++
 		}
-		if j >= len(f) {
-			emit(f[i:])
+		if j >= len(fb) {
+			// "%" (and flags) at the end of the format
+			emit("%!(NOVERB)")
 			break
 		}
-		verb := f[j]
-		spec := f[i : j+1]
+		verb := conc(j)
+		if verb >= 0x80 {
+			in.unsupported("non-ASCII verb in a format string")
+		}
+		spec = append(spec, verb)
 		i = j + 1
 		if verb == '%' {
 			emit("%")
@@ -889,7 +943,7 @@ func (in *Interp) sprintf(fr *frame, format Value, args []Value) Value {
 			emit("%!" + string(verb) + "(MISSING)")
 			continue
 		}
-		if hx := in.symHexArg(args[ai], spec, verb); hx != nil {
+		if hx := in.symHexArg(args[ai], string(spec), verb); hx != nil {
 			ai++
 			out = append(out, hx...)
 			continue
@@ -897,7 +951,7 @@ func (in *Interp) sprintf(fr *frame, format Value, args []Value) Value {
 		h, sym := in.fmtArg(fr, args[ai], verb)
 		ai++
 		if sym != nil {
-			if (verb == 's' || verb == 'v') && spec == "%"+string(verb) {
+			if (verb == 's' || verb == 'v') && string(spec) == "%"+string(verb) {
 				out = append(out, strBytes(sym)...)
 			} else if verb == 'q' {
 				emit("\"")
@@ -909,10 +963,10 @@ func (in *Interp) sprintf(fr *frame, format Value, args []Value) Value {
 			continue
 		}
 		if verb == 'T' {
-			emit(fmt.Sprintf(strings.Replace(spec, "T", "s", 1), h))
+			emit(fmt.Sprintf(strings.Replace(string(spec), "T", "s", 1), h))
 			continue
 		}
-		emit(fmt.Sprintf(spec, h))
+		emit(fmt.Sprintf(string(spec), h))
 	}
 	if ai < len(args) {
 		emit("%!(EXTRA)")
